@@ -15,15 +15,27 @@ for d, _, fs in os.walk(repo):
         continue
     for f in fs:
         if f.endswith(".go") and not f.endswith("_test.go") and not f.startswith("verif_hooks") and f != "doc.go":
-            files.append(os.path.join(d, f))
+            path = os.path.join(d, f)
+            if os.environ.get("MUT_FOCUS"):
+                # only files with wire / procedure logic (skips the many files that only name things)
+                txt = open(path).read()
+                if not re.search(r"DecodeFromBytes|SerializeTo|SendCommand|backoff\.|func checksum|Parse\(|ConvertReading|Lineari|func decode|rollingAvg|Twos|Ones|Decode\(", txt):
+                    continue
+            files.append(path)
 OPS = [(r"<=", "<"), (r">=", ">"), (r"==", "!="), (r"!=", "=="), (r"&&", "||"), (r"\|\|", "&&"), (r" < ", " <= "), (r" > ", " >= ")]
 def candidates(path):
     src = open(path).read()
     out = []
     in_comment = False
     pos = 0
+    fn = ""
     for line in src.split("\n"):
+        m0 = re.match(r"func (?:\([^)]*\) )?(\w+)", line)
+        if m0:
+            fn = m0.group(1)
         code = line.split("//")[0]
+        if os.environ.get("MUT_FOCUS") and (fn in ("String", "Description", "Symbol", "Format", "GoString") or "Errorf(" in code or "errors.New(" in code or code.strip().startswith('"')):
+            pos += len(line) + 1; continue
         if code.strip().startswith(("import", "package")) or '"' in code and code.count('"') >= 2 and re.search(r'"[^"]*(<=|>=|==|!=|&&|\|\|)[^"]*"', code):
             pos += len(line) + 1; continue
         for pat, rep in OPS:
